@@ -173,6 +173,47 @@ func evBitFwd(t *Tracer, id BID, hz, vz, S, mn, mx int64, sp bool) {
 	t.Emit(e, true)
 }
 
+// evBitFwdList: several voxels (nested / overlapping / repeated) converted together.
+func evBitFwdList(t *Tracer, ids []BID, hz, vz, S, mn, mx int64) {
+	real := make([]string, len(ids))
+	los, his := make([]int64, len(ids)), make([]int64, len(ids))
+	for i, id := range ids {
+		sh := 25 - id.V + S
+		if sh < 0 || sh > 28 {
+			return
+		}
+		los[i], his[i] = id.F<<uint(sh), (id.F+1)<<uint(sh)
+		real[i] = absW.realBID(id).String()
+	}
+	maxH, minH := unitsToM(mx, S), unitsToM(mn, S)
+	o, res := guard(func() (any, error) {
+		return transform.ConvertExtendedSpatialIDsToQuadkeysAndVerticalIDs(real, hz, vz, maxH, minH)
+	})
+	e := absW.ev("BitFwdList", map[string]any{"ids": bidsArr(ids), "hz": hz, "vz": vz, "S": S, "los": los, "his": his, "mn": mn, "mx": mx})
+	e.O, e.Real = o, map[string]any{"ids": real, "maxHeight": fmt.Sprint(maxH), "minHeight": fmt.Sprint(minH)}
+	e.R = []any{}
+	if o == "panic" {
+		e.Bad = "panic"
+	} else if res != nil {
+		groups := []any{}
+		for _, g := range res.([]*object.FromExtendedSpatialIDToQuadkeyAndVerticalID) {
+			pairs := []any{}
+			for _, p := range g.InnerIDList() {
+				d, ok := quadDigits(p[0], g.QuadkeyZoom())
+				if !ok {
+					e.Bad = "quadkey does not fit zoom"
+					continue
+				}
+				pairs = append(pairs, []any{d, p[1]})
+			}
+			groups = append(groups, map[string]any{"hz": g.QuadkeyZoom(), "vz": g.VerticalZoom(),
+				"echo": g.MaxHeight() == maxH && g.MinHeight() == minH, "pairs": pairs})
+		}
+		e.R = groups
+	}
+	t.Emit(e, true)
+}
+
 // evBitHi: subdivision zooms 13..35 with the range [mn, mn + cell * 2^vz) given by its cell height
 // (all in units of 2^-S m); the voxel / the cell index stay near the bottom of the range so that
 // every number the model sees is small.
@@ -471,6 +512,32 @@ func driveBits(t *Tracer, r Rng, n int) {
 				continue
 			}
 			evBitFwd(t, id, hz, vz, S, mn, mx, sp)
+			if mx > mn && !sp && r.Chance(0.5) {
+				// the same voxel together with relatives on the same quadkeys: coarser / finer
+				// vertical cells around it, vertical neighbours, a repeat
+				ids := []BID{id}
+				for k := 1 + r.Intn(3); k > 0; k-- {
+					b := id
+					switch r.Intn(4) {
+					case 0:
+						if b.V > 0 {
+							b.V, b.F = b.V-1, b.F>>1
+						}
+					case 1:
+						if b.V < 35 {
+							b.V, b.F = b.V+1, b.F<<1+r.In(0, 1)
+						}
+					case 2:
+						b.F += r.Pick(-1, 1)
+					}
+					if sh2 := 25 - b.V + S; sh2 < 0 || sh2 > 28 || big(b.F<<uint(sh2)) || big((b.F+1)<<uint(sh2)) {
+						continue
+					}
+					ids = append(ids, b)
+				}
+				r.Shuffle(len(ids), func(i, j int) { ids[i], ids[j] = ids[j], ids[i] })
+				evBitFwdList(t, ids, hz, vz, S, mn, mx)
+			}
 		} else { // backward
 			vz := r.In(0, 12)
 			S := r.In(-4, 6)
